@@ -180,6 +180,9 @@ DIRECTED = [
     ('lambda constants', ['lambda', T('g'), 'la'], ['lambda', T('g'), 'lb']),
     ('lambda attribute names', ['lambda', T('g'), 'lreal'], ['lambda', T('g'), 'limag']),
     ('lambda numeric constants', ['lambda', T('g'), 'l1'], ['lambda', T('g'), 'l2']),
+    ('lambda default argument', ['lambda', T('g'), 'ld0'], ['lambda', T('g'), 'ld1']),
+    ('lambda keyword-only default', ['lambda', T('g'), 'lkw0'], ['lambda', T('g'), 'lkw1']),
+    ('lambda captured variable', ['lambda', T('g'), 'lc0'], ['lambda', T('g'), 'lc2']),
     ('index i vs j', ['getitem', T('g'), L('0')], ['getitem', T('g'), L('1')]),
     ('index int vs str', ['getitem', T('g'), L('0')], ['getitem', T('g'), L("'0'")]),
     ('index vs slice', ['getitem', T('g'), L('1')], ['getitem', T('g'), L('slice(1, None, None)')]),
